@@ -261,6 +261,30 @@ def _dataset(draw):
     return case
 
 
+def check_twins(case: dict):
+    out = None
+    for sub_case in case["seq_cases"]:
+        out = check(sub_case)
+    return {"nt": bool(out and out.get("nt")), "labels": ["twins"]}
+
+
+@st.composite
+def _twins(draw):
+    """mazes of different shapes holding the same flags in the same flat order, rasterized one after the other in one process"""
+    from mzverif.props import C13
+
+    tw = draw(C13._twins())
+    opts = draw(_OPTS)
+    cases = []
+    for r, c in tw["order"]:
+        g = {"r": r, "c": c, "cl": tw["cl"]}
+        a = M.adj(g)
+        s0 = tuple(draw(G.cell_in(r, c)))
+        far = sorted(M.bfs(a, s0).items(), key=lambda kv: (-kv[1], kv[0]))[0][0]
+        cases.append({"g": g, "sol": [list(q) for q in M.shortest_path(a, s0, far)], "opts": opts})
+    return {"seq_cases": cases}
+
+
 @st.composite
 def _big(draw):
     base = draw(G.big_int8_case(sizes=(100, 65, 40, 64, 33)))
@@ -273,6 +297,7 @@ def subs(tier: str):
     return [
         Sub("hand-mazes", check, "hypothesis", strategy=lambda: _hand(10), examples=80 if q else 5000),
         Sub("generated-mazes", check, "hypothesis", strategy=lambda: _gen(10), examples=60 if q else 3000),
+        Sub("same-flags-other-shape", check_twins, "hypothesis", strategy=_twins, examples=10 if q else 200),
         Sub("large-grids-int8", check, "hypothesis", strategy=_big, examples=3 if q else 40),
         Sub("datasets-and-batches", check_dataset, "hypothesis", strategy=_dataset, examples=20 if q else 1500),
         Sub("config-routes", check_config_route, "hypothesis", strategy=_config_route, examples=10 if q else 500),
